@@ -21,13 +21,13 @@ func (schema *Schema) compilePattern(c RegexCompilerFunc) (cp RegexMatcher, err 
 		cp, err = regexp.Compile(intoGoRegexp(pattern))
 	}
 	if err != nil {
-		err = &SchemaError{
+		// no matcher: cp may hold a nil *regexp.Regexp, which is not a nil RegexMatcher
+		return nil, &SchemaError{
 			Schema:      schema,
 			SchemaField: "pattern",
 			Origin:      err,
 			Reason:      fmt.Sprintf("cannot compile pattern %q: %v", pattern, err),
 		}
-		return
 	}
 
 	var _ bool = compiledPatterns.CompareAndSwap(pattern, nil, cp)
